@@ -579,16 +579,16 @@ dexkv_matches_p(const_dexkv_t dkv, struct dt_dt_s d)
 		res = dkv->s == cmp;
 		break;
 	case OP_LT:
-		res = dkv->s < cmp;
+		res = cmp < dkv->s;
 		break;
 	case OP_LE:
-		res = dkv->s <= cmp;
+		res = cmp <= dkv->s;
 		break;
 	case OP_GT:
-		res = dkv->s > cmp;
+		res = cmp > dkv->s;
 		break;
 	case OP_GE:
-		res = dkv->s >= cmp;
+		res = cmp >= dkv->s;
 		break;
 	case OP_NE:
 		res = dkv->s != cmp;
